@@ -236,6 +236,10 @@ func runC02(c *Ctx) {
 						if ver != nil {
 							nats["version"] = ver
 						}
+						// (half of them also carry tags inside the nats section, as version-2 tooling writes them)
+						if (len(ktop)+len(knats)+len(ir))%2 == 0 {
+							nats["tags"] = []string{"tag-in-nats"}
+						}
 						m["nats"] = nats
 						pj, _ := json.Marshal(m)
 						hdr := hdrV2
@@ -527,6 +531,34 @@ func runC05(c *Ctx) {
 					distinct[fmt.Sprint("stdalpha", kind, which, layout, o.Accepted, o.Generic)] = true
 					c.count("standard_alphabet_segment")
 				}
+			}
+		}
+	}
+	// the kind (and the version) spelled TWICE in one object, the second time as null: a null assigns nothing, the payload
+	// declares what it declared - a retired kind is refused, a newer version is refused
+	for _, pj := range []string{
+		`{"iss":"ISS","sub":"SUB","iat":1700000000,"type":"cluster","type":null}`,
+		`{"iss":"ISS","sub":"SUB","iat":1700000000,"type":"server","type":null,"nats":{}}`,
+		`{"iss":"ISS","sub":"SUB","iat":1700000000,"nats":{"type":"server","version":2,"type":null}}`,
+		`{"iss":"ISS","sub":"SUB","iat":1700000000,"nats":{"type":"cluster","type":null,"version":2}}`,
+		`{"iss":"ISS","sub":"SUB","iat":1700000000,"nats":{"type":"user","version":3,"version":null}}`,
+		`{"iss":"ISS","sub":"SUB","iat":1700000000,"nats":{"version":7,"type":"generic","version":null}}`,
+		`{"iss":"ISS","sub":"SUB","iat":1700000000,"type":null,"type":"cluster"}`,
+		`{"iss":"ISS","sub":"SUB","iat":1700000000,"nats":null,"nats":{"type":"server","version":2}}`,
+	} {
+		s := kr.by["operator"]
+		pj = strings.NewReplacer("ISS", s.pub, "SUB", kr.by["account"].pub).Replace(pj)
+		for _, layout := range []string{"v1", "v2"} {
+			for _, hdr := range []string{hdrV1, hdrV2} {
+				ft := forge(hdr, pj, layout, s)
+				ft.Note = "a member spelled twice, once as null"
+				_, o := processToken(c, w, ft)
+				c.sum.ImplChecks++
+				if o.Accepted {
+					c.violation("C05: accepted a payload that declares a retired kind or a newer version (the member is spelled a second time as null, which assigns nothing)",
+						map[string]interface{}{"token": ft.Token, "payload_json": pj, "signed_layout": layout})
+				}
+				distinct[fmt.Sprint("dupnull", pj[40:], layout, hdr == hdrV1, o.Accepted)] = true
 			}
 		}
 	}
@@ -1084,6 +1116,60 @@ func runC01(c *Ctx) {
 							distinct[fmt.Sprint("richhybrid", kind, topKind, layout, hdr == hdrV1, o.Accepted)] = true
 						}
 					}
+				}
+			}
+		}
+	}
+	// a key named SOMEWHERE ELSE in the claims - the server an authorization request names, the account a user or an
+	// activation names as issuer account, a listed signing key, the operator's system account - signs the token while
+	// iss names another key of a permitted role: the signature is checked under iss and under nothing else
+	{
+		rg := &valGen{rng: c.Rng, kr: kr, fill: 50, scopeByValue: true}
+		for _, kind := range kindNames {
+			named := []*signer{newSigner("server"), newSigner("account"), newSigner("operator"), newSigner("user")}
+			cl, s := rg.newClaims(kind)
+			switch x := cl.(type) {
+			case *jwt.AuthorizationRequestClaims:
+				x.Server.ID, x.UserNkey = named[0].pub, named[3].pub
+			case *jwt.AuthorizationResponseClaims:
+				x.IssuerAccount = named[1].pub
+			case *jwt.UserClaims:
+				x.IssuerAccount = named[1].pub
+			case *jwt.ActivationClaims:
+				x.IssuerAccount = named[1].pub
+			case *jwt.AccountClaims:
+				if x.SigningKeys == nil {
+					x.SigningKeys = jwt.SigningKeys{}
+				}
+				x.SigningKeys.Add(named[1].pub)
+				x.Authorization.AuthUsers.Add(named[3].pub)
+			case *jwt.OperatorClaims:
+				x.SigningKeys.Add(named[2].pub)
+				x.SystemAccount = named[1].pub
+			case *jwt.GenericClaims:
+				if x.Data == nil {
+					x.Data = map[string]interface{}{}
+				}
+				x.Data["server_id"] = map[string]interface{}{"id": named[0].pub}
+				x.Data["issuer_account"] = named[1].pub
+			}
+			tok, err := cl.Encode(s.kp)
+			if err != nil {
+				continue
+			}
+			ch := strings.Split(tok, ".")
+			pj, _ := b64.DecodeString(ch[1])
+			for _, n := range named {
+				for _, layout := range []string{"v1", "v2"} {
+					hdr := hdrV2
+					if layout == "v1" {
+						hdr = hdrV1
+					}
+					ft := forge(hdr, string(pj), layout, n)
+					ft.Note = fmt.Sprintf("%s claims issued (iss) by a %s key, signed by the %s key they name elsewhere", kind, s.role, n.role)
+					_, o := processToken(c, w, ft)
+					c.count("signed_by_a_key_named_elsewhere")
+					distinct[fmt.Sprint("named", kind, n.role, layout, o.Accepted)] = true
 				}
 			}
 		}
